@@ -33,8 +33,10 @@ impl<'a> Read for ChunkReader<'a> {
 }
 
 /// Writer that accepts at most `chunk` bytes per call and fails (hard) once `fail_at` bytes were accepted.
+/// Fixed-capacity buffer (no reallocation paths for CBMC).
 pub struct FaultWriter {
-    pub buf: Vec<u8>,
+    pub buf: [u8; 96],
+    pub len: usize,
     pub fail_at: usize,
     pub chunk: usize,
     pub flush_fails: bool,
@@ -43,19 +45,22 @@ pub struct FaultWriter {
 }
 impl FaultWriter {
     pub fn new() -> Self {
-        FaultWriter { buf: Vec::with_capacity(64), fail_at: usize::MAX, chunk: usize::MAX, flush_fails: false, kind: ErrorKind::Other, faulted: false }
+        FaultWriter { buf: [0; 96], len: 0, fail_at: usize::MAX, chunk: usize::MAX, flush_fails: false, kind: ErrorKind::Other, faulted: false }
     }
+    pub fn written(&self) -> &[u8] { &self.buf[..self.len] }
 }
 impl Write for FaultWriter {
     fn write(&mut self, data: &[u8]) -> io::Result<usize> {
-        if self.buf.len() >= self.fail_at {
+        if self.len >= self.fail_at {
             self.faulted = true;
             return Err(io::Error::from(self.kind));
         }
         let mut n = data.len();
         if n > self.chunk { n = self.chunk; }
-        if n > self.fail_at - self.buf.len() { n = self.fail_at - self.buf.len(); }
-        self.buf.extend_from_slice(&data[..n]);
+        if n > self.fail_at - self.len { n = self.fail_at - self.len; }
+        if n > 96 - self.len { self.faulted = true; return Err(io::Error::from(ErrorKind::WriteZero)); }
+        self.buf[self.len..self.len + n].copy_from_slice(&data[..n]);
+        self.len += n;
         Ok(n)
     }
     fn flush(&mut self) -> io::Result<()> {
